@@ -163,7 +163,8 @@ def install(ctx, repo, probes):
         ctx.target("strftime/" + rep)
     for c in SUPPORTED:
         ctx.target("directive/%" + c)
-    ctx.target("week-year-differs-from-calendar-year", "%s-before-1970",
+    ctx.target("parser/assumed+default-unknown", "empty-format",
+               "week-year-differs-from-calendar-year", "%s-before-1970",
                "strptime/full", "strptime/epoch", "strptime/partial",
                "strptime/%s-before-1970", "unsupported-refused")
 
@@ -217,10 +218,17 @@ def run_case(ctx, repo, case):
         return
     # round trip
     assumed = tuple(case.get("assumed", (0, 0)))
-    if assumed not in ctx.parsers:
-        ctx.parsers[assumed] = repo.parsers.TimePointParser(
-            assumed_time_zone=assumed)
-    parser = ctx.parsers[assumed]
+    # (an assumed zone outranks default_to_unknown_time_zone when a parser
+    # is given both, as in TimePointParser.parse; chosen from the case)
+    both = bool(case.get("also_unknown",
+                         (assumed[0] + assumed[1]) % 3 == 1))
+    if (assumed, both) not in ctx.parsers:
+        kw = {"default_to_unknown_time_zone": True} if both else {}
+        ctx.parsers[(assumed, both)] = repo.parsers.TimePointParser(
+            assumed_time_zone=assumed, **kw)
+    parser = ctx.parsers[(assumed, both)]
+    if both:
+        ctx.cls("parser/assumed+default-unknown")
     try:
         text = p.strftime(fmt)
     except Exception:
@@ -294,6 +302,11 @@ def workload(ctx, repo):
             case = {"op": "strftime", "p": make_point(rng, whole=(k % 4 != 0)),
                     "fmt": rand_format(rng),
                     "via": "dumper" if k % 3 == 0 else "point"}
+            if k % 50 == 10:
+                # no directive at all: the empty format, literal text only
+                case["fmt"] = rng.choice(("", "", " ", "T", "literal"))
+                if case["fmt"] == "":
+                    ctx.cls("empty-format")
         elif v < 7:
             case = {"op": "roundtrip", "p": make_point(rng),
                     "fmt": determining_format(rng),
